@@ -64,3 +64,21 @@ reg('C10',
     level_text='Exhaustive for capacities 1..3 (quick) / 1..4 (thorough): the BFS reaches the fix-point of the reachable state set, so every history of any length over the operation alphabet is covered, including every placement of an allocation failure.',
     level_note='trusts the link-time allocator wrapper (all library allocations go through strndup/free) and ASan manual poisoning',
     design_ref='DESIGN.md section 3 / C10')
+
+reg('C20',
+    title='allocation-free build stores error texts intact or not at all',
+    src='c20_heap.c', engine='mcx',
+    configs={'quick': ['heap'], 'thorough': ['heap']},
+    deadline={'quick': 100, 'thorough': 1500},
+    level=MC,
+    technique='explicit-state model checking (BFS to the fix-point) of the real static-heap error queue against a "text or nothing" reference FIFO',
+    rule=('explicit-state BFS, one run per (heap size H, queue capacity N), H = 2..8 x N = 1..3 (quick) / H = 2..12 x N = 1..4 (thorough): operations = '
+          'push with a text of every length 0..H (letter not used by any live entry), two pushes with explicit shorter info_len, push without text, '
+          'SYST:ERR?, SCPI_ErrorClear, *CLS; key = queue indices and entries (text pointers as heap offsets), heap bytes, heap wr/count, model; every '
+          'SYST:ERR? response is compared with the reference FIFO (exact text or none); in every state with an empty queue a probe push of H-1 characters '
+          'must be stored whole; non-trivial = transition that pushes or changes the number of queued errors'),
+    assumptions=['built with -DUSE_MEMORY_ALLOCATION_FREE=0 (a configuration the repository test suite never compiles)',
+                 'the heap and the error ring are exact-size malloc blocks under ASan, so any access outside them traps'],
+    level_text='Exhaustive for the stated heap sizes and capacities: BFS to the fix-point of the reachable state set (or the stated cap), every history over the operation alphabet.',
+    level_note='texts are runs of one letter; quote characters and the 255-character cut are the subject of C18',
+    design_ref='DESIGN.md section 3 / C20')
